@@ -17,6 +17,12 @@
 (*   "fixed"   Content-Length given by the application          -> "length"                    *)
 (*   "stream"  pieces without a length, request was HTTP/1.1    -> "chunked"                   *)
 (*   "empty"   no body at all                                   -> "chunked" or "length" (0)   *)
+(* A shape says what the client must receive, not how the application hands it over: the body  *)
+(* iterable may have one or several items, empty items anywhere (PEP 3333: "not ready yet"),   *)
+(* may be a list or a generator, part of the body may go through the write() callable, an      *)
+(* empty response may declare Content-Length: 0 or nothing and have no item or an empty item,  *)
+(* a fixed response may offer more than it declared (the rest is dropped).  All of these are   *)
+(* the same behaviour here; the harness rotates through them (STYLES in keepalive.py).         *)
 (* A body that runs until the connection closes ("close") is not delimited: nothing can follow *)
 (* it on the connection.                                                                       *)
 (*                                                                                             *)
